@@ -12,8 +12,8 @@ ANY input, well-formed or not (`construct_wf`).  The in-place operations (insert
 from them: eraseRegion without shrinking, union, difference) preserve well-formedness (C07/C10/C11) — with no
 separation hypothesis: they only delete members of the tier, which `deleteEntry` (exact match first) removes exactly;
 a `deleteEntry` of an absent entry removes at most one entry, which keeps a well-formed tier well-formed.
-`reachable_wf` lifts this to operation sequences of any length.  `eraseRegion` has no side condition (`OpOk` is `True`
-for it) since fix A28: shrinking clips the region to the span, so the result is well-formed for every region
+`reachable_wf` lifts this to operation sequences of any length, with NO side condition on any operation (since fix
+9432f3b the constructor never returns a tier with a reversed span; `OpOk` is gone).  `eraseRegion` has had none since fix A28: shrinking clips the region to the span, so the result is well-formed for every region
 (`C07.erase_wf_any`; before the fix an entry-less tier could come back ending before its start).
 -/
 namespace C05
@@ -75,14 +75,12 @@ theorem disj_of_adjacent (es : List (Iv Int)) (hp : Pos es) (h : ivsNoOverlap es
         have := hp y (by simp)
         omega
 
-/-- **constructor**: whatever entry list and labels are given, with a requested span that is not reversed (`hspan`:
-if both `minT` and `maxT` are given then `minT ≤ maxT`), a tier that the IntervalTier
-constructor returns is well-formed; and it refuses only with TextgridStateError or TimelessTextgridTierException.
-`hspan` is NOT enforced by the code and matters exactly for an entry-less tier: see
-`construct_reversed_span_counterexample` (with entries the hull of the entries repairs a reversed request:
-`construct_wf_of_entries`). -/
-theorem construct_wf (name : String) (es : List (Iv Int)) (lo hi : Option Int)
-    (hspan : ∀ a b, lo = some a → hi = some b → a ≤ b) :
+/-- **constructor**: whatever entry list, labels and requested span (given or not, in order or reversed) are passed,
+a tier that the IntervalTier constructor returns is well-formed; and it refuses only with TextgridStateError or
+TimelessTextgridTierException.  No hypothesis: the former `hspan` ("the requested span is not reversed") excluded
+`IntervalTier('T', [], 5, 2)`, which kept `minTimestamp 5 > maxTimestamp 2` — finding A29, repaired in /repo (9432f3b:
+bounds that come out in the wrong order are swapped, as `PointTier` takes the hull); `construct_reversed_span_regression`. -/
+theorem construct_wf (name : String) (es : List (Iv Int)) (lo hi : Option Int) :
     (∀ t, mkITier name es lo hi = .ok t → t.WF) ∧
     (∀ e, mkITier name es lo hi = .error e → e = .TextgridStateError ∨ e = .Timeless) := by
   unfold mkITier
@@ -110,106 +108,62 @@ theorem construct_wf (name : String) (es : List (Iv Int)) (lo hi : Option Int)
           have hdisj := disj_of_adjacent es1 hpos hv.2
           have hlo := pyMinList_le _ _ hmin
           have hhi := pyMaxList_ge _ _ hmax
-          refine ⟨hpos, hdisj, ?_, ?_, hstr, ?_⟩
-          · intro iv hiv; exact hlo iv.s (List.mem_append_left _ (List.mem_map_of_mem hiv))
-          · intro iv hiv; exact hhi iv.e (List.mem_append_left _ (List.mem_map_of_mem hiv))
-          · simp only
+          -- with an entry the hull is in order, so nothing is swapped
+          have hord : es1 ≠ [] → mn < mx := by
+            intro hne
             cases es1 with
-            | nil =>
-              have h1 := pyMinList_mem _ _ hmin
-              have h2 := pyMaxList_mem _ _ hmax
-              simp only [List.map_nil, List.nil_append, Option.mem_toList] at h1 h2
-              exact hspan mn mx h1 h2
+            | nil => exact absurd rfl hne
             | cons x xs =>
               have := hlo x.s (by simp)
               have := hhi x.e (by simp)
               have := hpos x (by simp)
               omega
+          refine ⟨hpos, hdisj, ?_, ?_, hstr, ?_⟩
+          · intro iv hiv
+            have := hlo iv.s (List.mem_append_left _ (List.mem_map_of_mem hiv))
+            have := hord (List.ne_nil_of_mem hiv)
+            simp only; split <;> omega
+          · intro iv hiv
+            have := hhi iv.e (List.mem_append_left _ (List.mem_map_of_mem hiv))
+            have := hord (List.ne_nil_of_mem hiv)
+            simp only; split <;> omega
+          · simp only; split <;> omega
         · intro e h; cases h
       · simp only [hv, Bool.false_eq_true, if_false]
         constructor
         · intro t h; cases h
         · intro e h; simp only [Except.error.injEq] at h; left; exact h.symm
 
-/-- with at least one entry the requested span may be anything (also reversed): the span is the hull of the entries
-and the requested bounds, and an entry has `start < end` -/
-theorem construct_wf_of_entries (name : String) (es : List (Iv Int)) (lo hi : Option Int) (hne : es ≠ []) :
-    ∀ t, mkITier name es lo hi = .ok t → t.WF := by
-  intro t ht
-  by_cases hspan : ∀ a b, lo = some a → hi = some b → a ≤ b
-  · exact (construct_wf name es lo hi hspan).1 t ht
-  · -- reversed request: same argument as in `construct_wf`, the last clause from an entry
-    unfold mkITier at ht
-    generalize hes1 : sortIvs (es.map fun iv => { iv with l := pyStrip iv.l }) = es1 at ht
-    have hstr : Stripped es1 := by
-      intro y hy
-      rw [← hes1, mem_sortIvs] at hy
-      obtain ⟨iv, _, rfl⟩ := List.mem_map.1 hy
-      exact pyStrip_idem _
-    have hne1 : es1 ≠ [] := by
-      intro h
-      have hl : es1.length = es.length := by rw [← hes1, (sortIvs_perm _).length_eq, List.length_map]
-      rw [h] at hl
-      exact hne (List.eq_nil_of_length_eq_zero hl.symm)
-    simp only at ht
-    cases hmin : pyMinList (es1.map (·.s) ++ lo.toList) with
-    | none => rw [hmin] at ht; simp at ht
-    | some mn =>
-      cases hmax : pyMaxList (es1.map (·.e) ++ hi.toList) with
-      | none => rw [hmin, hmax] at ht; simp at ht
-      | some mx =>
-        rw [hmin, hmax] at ht
-        simp only at ht
-        by_cases hv : (ivsAllPos es1 && ivsNoOverlap es1) = true
-        · simp only [hv, if_true, Except.ok.injEq] at ht; subst ht
-          simp only [Bool.and_eq_true] at hv
-          have hpos := (ivsAllPos_iff es1).1 hv.1
-          have hdisj := disj_of_adjacent es1 hpos hv.2
-          have hlo := pyMinList_le _ _ hmin
-          have hhi := pyMaxList_ge _ _ hmax
-          refine ⟨hpos, hdisj, ?_, ?_, hstr, ?_⟩
-          · intro iv hiv; exact hlo iv.s (List.mem_append_left _ (List.mem_map_of_mem hiv))
-          · intro iv hiv; exact hhi iv.e (List.mem_append_left _ (List.mem_map_of_mem hiv))
-          · simp only
-            cases es1 with
-            | nil => exact absurd rfl hne1
-            | cons x xs =>
-              have := hlo x.s (by simp)
-              have := hhi x.e (by simp)
-              have := hpos x (by simp)
-              omega
-        · simp only [hv, Bool.false_eq_true, if_false] at ht; cases ht
+/-- (kept for the index) with at least one entry … — now a special case of `construct_wf` -/
+theorem construct_wf_of_entries (name : String) (es : List (Iv Int)) (lo hi : Option Int) (_hne : es ≠ []) :
+    ∀ t, mkITier name es lo hi = .ok t → t.WF :=
+  (construct_wf name es lo hi).1
 
-/-- **FINDING (replayed on the real class) — the excluded case of `hspan`.**  `IntervalTier('T', [], 5, 2)` (no entries,
-`minT = 5 > maxT = 2`) is accepted: the tier has `minTimestamp = 5.0`, `maxTimestamp = 2.0` and `validate()` returns
-True; likewise `tier.new(entries=[], minTimestamp=20)` on a tier ending at 10 returns a tier spanning `[20, 10]`.
-The model does the same, and the result is not well-formed (`WF.span`: `lo ≤ hi`) — the same kind of object as in
-finding A28 (`maxTimestamp < minTimestamp`).  Expected: a praatio error (as for any other request the constructor
-cannot honour), or the bounds put in order as `PointTier('T', [], 5, 2)` does (it returns the span `[2, 5]`:
-`mkPTier` takes `min`/`max` over one list).  With at least one entry the hull repairs the request
-(`construct_wf_of_entries`; `IntervalTier('T', [(1,3,'a')], 5, 2)` spans `[1, 3]`). -/
-theorem construct_reversed_span_counterexample :
-    mkITier "T" ([] : List (Iv Int)) (some 5) (some 2) = .ok ⟨"T", [], 5, 2⟩ ∧
-    ¬ (⟨"T", [], 5, 2⟩ : ITier Int).WF ∧ (⟨"T", [], 5, 2⟩ : ITier Int).validate = true ∧
+/-- **regression of finding A29** (found by the hypothesis audit: `construct_wf` carried the hypothesis `hspan`; replayed
+on the class before and after the repair 9432f3b).  `IntervalTier('T', [], 5, 2)` — no entries, bounds in the wrong
+order — now spans `[2, 5]` (before: `minTimestamp 5.0 > maxTimestamp 2.0`, `validate()` True), like
+`PointTier('T', [], 5, 2)`; `tier.new(entries=[], minTimestamp=20)` on a tier ending at 10 spans `[10, 20]` (before:
+`[20, 10]`).  Both results are well-formed. -/
+theorem construct_reversed_span_regression :
+    mkITier "T" ([] : List (Iv Int)) (some 5) (some 2) = .ok ⟨"T", [], 2, 5⟩ ∧
+    (⟨"T", [], 2, 5⟩ : ITier Int).WF ∧
     mkPTier "T" ([] : List (Pt Int)) (some 5) (some 2) = .ok ⟨"T", [], 2, 5⟩ ∧
-    (⟨"T", [⟨1, 3, "a"⟩], 0, 10⟩ : ITier Int).new (es := some []) (lo := some 20) = .ok ⟨"T", [], 20, 10⟩ := by
+    (⟨"T", [⟨1, 3, "a"⟩], 0, 10⟩ : ITier Int).new (es := some []) (lo := some 20) = .ok ⟨"T", [], 10, 20⟩ ∧
+    (⟨"T", [], 10, 20⟩ : ITier Int).WF := by
   refine ⟨?_, ?_, ?_, ?_, ?_⟩
-  · rw [mkITier_of_wf "T" [] 5 2 (by simp [Pos]) (by simp [Disj]) (by simp [Stripped])]; rfl
-  · intro h
-    have := h.span
-    simp at this
-  · simp [ITier.validate, ITier.validate.go]
+  · rw [mkITier_of_wf_any "T" [] 5 2 (by simp [Pos]) (by simp [Disj]) (by simp [Stripped])]; rfl
+  · refine ⟨?_, ?_, ?_, ?_, ?_, ?_⟩ <;> simp [Pos, Disj, Stripped]
   · rw [mkPTier_of_wf "T" [] 5 2 (by simp) (by simp)]; rfl
   · unfold ITier.new
     simp only [Option.getD_some, Option.getD_none]
-    rw [mkITier_of_wf "T" [] 20 10 (by simp [Pos]) (by simp [Disj]) (by simp [Stripped])]; rfl
+    rw [mkITier_of_wf_any "T" [] 20 10 (by simp [Pos]) (by simp [Disj]) (by simp [Stripped])]; rfl
+  · refine ⟨?_, ?_, ?_, ?_, ?_, ?_⟩ <;> simp [Pos, Disj, Stripped]
 
-/-- the constructor applied through `tier.new(...)` / every operation that ends in it (`hspan`: as in `construct_wf`;
-every operation of the library that ends in `new` passes a span that is in order — that is what `step_wf` shows) -/
+/-- the constructor applied through `tier.new(...)` / every operation that ends in it: no hypothesis -/
 theorem new_wf (t : ITier Int) (name : Option String) (es : Option (List (Iv Int))) (lo hi : Option Int)
-    (hspan : (lo.getD t.lo) ≤ (hi.getD t.hi)) (t' : ITier Int) (h : t.new name es lo hi = .ok t') : t'.WF := by
+    (t' : ITier Int) (h : t.new name es lo hi = .ok t') : t'.WF := by
   unfold ITier.new at h
-  exact (construct_wf _ _ _ _ (by intro a b ha hb; cases ha; cases hb; exact hspan)).1 t' h
+  exact (construct_wf _ _ _ _).1 t' h
 
 /-! ## operations on one tier (with well-formed second operands), and histories -/
 
@@ -245,29 +199,34 @@ def stepT (t : ITier Int) : TOp → Except Err (ITier Int)
   | .morph u sel => t.morph u sel
   | .new => t.new
 
-/-- side conditions under which a step is covered by the theorems (see lean/HYPOTHESES.md): second operands are
-well-formed tiers (the property's own wording: "operations on well-formed tiers"; every tier object that can be passed
-comes from a constructor); `insertSpace` is asked for a positive duration (the property's quantifier of C08);
-`appendTier` works on non-negative times (NOT enforced by the code: `C09.append_negative_counterexample`).  There is no
-condition on the tier's entries, on the inserted entry (any times, any label) and on `eraseRegion` / `insertSpace`
-positions. -/
-def OpOk (t : ITier Int) : TOp → Prop
-  | .crop _ _ _ _ => True
-  | .erase _ _ _ _ => True
-  | .space _ d _ => 0 < d
-  | .shift _ _ => True
-  | .insert _ _ => True
-  | .delete _ => True
-  | .union u => u.WF
-  | .difference u => u.WF
-  | .intersection u => u.WF
-  | .mergeLabels u => u.WF
-  | .append u => u.WF ∧ 0 ≤ u.lo ∧ 0 ≤ t.hi
-  | .dejitter _ _ => True
-  | .morph u _ => u.WF
-  | .new => True
+theorem bind_ok' {β γ} {x : Except Err β} {f : β → Except Err γ} {y : γ} (h : x >>= f = .ok y) :
+    ∃ z, x = .ok z ∧ f z = .ok y := by
+  cases x with
+  | error e => cases h
+  | ok z => exact ⟨z, rfl, h⟩
 
-theorem step_wf (t : ITier Int) (hwf : t.WF) (op : TOp) (hop : OpOk t op) (t' : ITier Int)
+/-- an invariant kept by every step of a `foldlM` holds at its end -/
+theorem foldlM_inv {β} (P : ITier Int → Prop) (f : ITier Int → β → Except Err (ITier Int))
+    (hf : ∀ a b a', P a → f a b = .ok a' → P a') :
+    ∀ (l : List β) (a r : ITier Int), P a → l.foldlM f a = .ok r → P r := by
+  intro l
+  induction l with
+  | nil => intro a r ha h; simp only [List.foldlM, pure, Except.pure, Except.ok.injEq] at h; subst h; exact ha
+  | cons b l ih =>
+    intro a r ha h
+    simp only [List.foldlM, bind, Except.bind] at h
+    cases hb : f a b with
+    | error e => rw [hb] at h; cases h
+    | ok a' => rw [hb] at h; exact ih a' r (hf a b a' ha hb) h
+
+/-- **one step, NO side condition** (since fix 9432f3b the IntervalTier constructor returns a well-formed tier for every
+argument, `construct_wf`; before, `OpOk` asked for a positive `insertSpace` duration, well-formed second operands and
+non-negative times for `appendTier`): whatever the operation and its arguments — any window, region, duration (also
+zero or negative), offset, entry, label, mode, ANY second operand (well-formed or not) — a tier that the call returns
+for a well-formed receiver is well-formed.  What the calls DO outside their properties' quantifiers (`insertSpace` with
+`d ≤ 0`, `appendTier` on negative times: `C09.append_negative_counterexample`) is another matter; the result is a
+well-formed tier or an exception. -/
+theorem step_wf (t : ITier Int) (hwf : t.WF) (op : TOp) (t' : ITier Int)
     (h : stepT t op = .ok t') : t'.WF := by
   cases op with
   | crop a b m r =>
@@ -281,17 +240,10 @@ theorem step_wf (t : ITier Int) (hwf : t.WF) (op : TOp) (hop : OpOk t op) (t' : 
     simp only [stepT] at h
     exact C07.erase_wf_any t hwf a b m sh t' h
   | space s d m =>
-    simp only [stepT] at h
-    have hd : 0 < d := hop
-    by_cases hm : m = .error → ∀ iv ∈ t.es, ¬ C08.Straddles s iv
-    · obtain ⟨t'', e, w, _⟩ := C08.insert_spec t hwf s d hd m hm
-      rw [h] at e; cases e; exact w
-    · have hm' : m = .error ∧ ∃ iv ∈ t.es, C08.Straddles s iv := by
-        apply Classical.byContradiction
-        intro hc; apply hm; intro he iv hiv hs; exact hc ⟨he, iv, hiv, hs⟩
-      obtain ⟨he, iv, hiv, hs⟩ := hm'
-      subst he
-      rw [C08.insert_error_mode t s d iv hiv hs] at h; cases h
+    simp only [stepT, ITier.insertSpace] at h
+    split at h
+    · cases h
+    · exact new_wf t _ _ _ _ t' h
   | shift o rep =>
     simp only [stepT] at h
     by_cases hr : rep = .error
@@ -310,42 +262,47 @@ theorem step_wf (t : ITier Int) (hwf : t.WF) (op : TOp) (hop : OpOk t op) (t' : 
     simp only [stepT] at h
     exact C11.step_wf t hwf (.delete x) t' h
   | union u =>
-    simp only [stepT] at h
-    obtain ⟨R, e, w, _⟩ := C10.union_spec t u hwf hop
-    rw [h] at e; cases e; exact w
+    simp only [stepT, ITier.union] at h
+    obtain ⟨nt, hn, h⟩ := bind_ok' h
+    obtain ⟨r, hr, h⟩ := bind_ok' h
+    have h := Except.ok.inj h
+    have hnt : nt.WF := new_wf t _ _ _ _ nt hn
+    have hrw : r.WF := foldlM_inv (·.WF) (fun acc e => acc.insertEntry e .merge)
+      (fun a b a' ha hab => C11.step_wf a ha (.insert b .merge) a' hab) u.es nt r hnt hr
+    subst h
+    have : sortIvs r.es = r.es := sortIvs_of_wf r.es hrw.pos hrw.disj
+    rw [this]
+    exact hrw
   | difference u =>
-    simp only [stepT] at h
-    obtain ⟨R, e, w, _⟩ := C10.difference_spec t u hwf hop
-    rw [h] at e; cases e; exact w
+    simp only [stepT, ITier.difference] at h
+    obtain ⟨nt, hn, h⟩ := bind_ok' h
+    exact foldlM_inv (·.WF) (fun acc e => acc.eraseRegion e.s e.e .truncate false)
+      (fun a b a' ha hab => C07.erase_wf_any a ha b.s b.e .truncate false a' hab) u.es nt t'
+      (new_wf t _ _ _ _ nt hn) h
   | intersection u =>
-    simp only [stepT] at h
-    obtain ⟨R, e, w, _⟩ := C10.intersection_spec t u hwf hop
-    rw [h] at e; cases e; exact w
+    simp only [stepT, ITier.intersection] at h
+    obtain ⟨parts, _, h⟩ := bind_ok' h
+    exact new_wf t _ _ _ _ t' h
   | mergeLabels u =>
-    simp only [stepT] at h
-    obtain ⟨R, e, w, _⟩ := C10.mergeLabels_spec t u hwf hop
-    rw [h] at e; cases e; exact w
+    simp only [stepT, ITier.mergeLabels] at h
+    obtain ⟨parts, _, h⟩ := bind_ok' h
+    exact new_wf t _ _ _ _ t' h
   | append u =>
-    simp only [stepT] at h
-    obtain ⟨hu, h1, h2⟩ := hop
-    obtain ⟨R, e, w, _⟩ := C09.append_spec t u hwf hu h1 h2
-    rw [h] at e; cases e; exact w
+    simp only [stepT, ITier.appendTier] at h
+    obtain ⟨u', _, h⟩ := bind_ok' h
+    exact new_wf t _ _ _ _ t' h
   | dejitter refs md =>
     simp only [stepT] at h
     exact C14.dejitter_ok_wf t hwf refs md t' h
   | morph u sel =>
-    simp only [stepT] at h
-    by_cases hl : t.es.length = u.es.length
-    · by_cases hne : t.es = []
-      · have hue : u.es = [] := by
-          cases hu : u.es with
-          | nil => rfl
-          | cons a as => rw [hne, hu] at hl; simp at hl
-        rw [C14.morph_empty_wf sel t u hwf hne hue] at h
-        cases h; exact hwf
-      · obtain ⟨t'', _, _, e, w, _⟩ := C14.morph_ok sel t u hwf hop hl hne
-        rw [h] at e; cases e; exact w
-    · rw [C14.morph_mismatch sel t u hl] at h; cases h
+    simp only [stepT, ITier.morph] at h
+    split at h
+    · exact new_wf t _ _ _ _ t' h
+    · split at h
+      · cases h
+      · split at h
+        · exact (construct_wf _ _ _ _).1 t' h
+        · cases h
   | new =>
     simp only [stepT] at h
     rw [new_of_wf t hwf] at h; cases h; exact hwf
@@ -357,22 +314,21 @@ def run (t : ITier Int) : List TOp → ITier Int
     | .ok t' => run t' ops
     | .error _ => run t ops
 
-def Admissible : ITier Int → List TOp → Prop
-  | _, [] => True
-  | t, op :: ops => OpOk t op ∧ (∀ t', stepT t op = .ok t' → Admissible t' ops) ∧
-      (∀ e, stepT t op = .error e → Admissible t ops)
-
 /-- **every reachable tier is well-formed**: for operation sequences of ANY length (the bound 12 of the property
-text is the harness's, not the theorem's) -/
-theorem reachable_wf (t : ITier Int) (hwf : t.WF) (ops : List TOp) (h : Admissible t ops) : (run t ops).WF := by
+text is the harness's, not the theorem's) with ARBITRARY arguments — no admissibility condition -/
+theorem reachable_wf (t : ITier Int) (hwf : t.WF) (ops : List TOp) : (run t ops).WF := by
   induction ops generalizing t with
   | nil => exact hwf
   | cons op ops ih =>
-    obtain ⟨hop, h1, h2⟩ := h
     simp only [run]
     cases hs : stepT t op with
-    | ok t' => exact ih t' (step_wf t hwf op hop t' hs) (h1 t' hs)
-    | error e => exact ih t hwf (h2 e hs)
+    | ok t' => exact ih t' (step_wf t hwf op t' hs)
+    | error e => exact ih t hwf
+
+/-- … starting from the constructor: whatever is passed to `IntervalTier(...)` and whatever is done afterwards -/
+theorem reachable_from_constructor (name : String) (es : List (Iv Int)) (lo hi : Option Int) (t : ITier Int)
+    (h : mkITier name es lo hi = .ok t) (ops : List TOp) : (run t ops).WF :=
+  reachable_wf t ((construct_wf name es lo hi).1 t h) ops
 
 /-- `validate()` agrees with well-formedness -/
 theorem validate_of_wf (t : ITier Int) (h : t.WF) : t.validate = true := C15.wf_validate t h
